@@ -1,0 +1,10 @@
+//go:build verif
+
+package renderer
+
+// Verification hooks for property C10 (/verif): the unexported 32-bit zigzag pair of the tile
+// encoder. Nothing here changes behaviour; the file is only compiled with -tags verif.
+
+func VerifC10ZigzagEncode(value int) uint32 { return zigzagEncode(value) }
+
+func VerifC10ZigzagDecode(value uint32) int { return zigzagDecode(value) }
